@@ -19,8 +19,8 @@ type ConcOpts struct {
 	Executors []string
 	Lin       bool // per-key linearizability (porcupine)
 	// quiescence protocol
-	NoCleanup bool // C14: audit without calling anything after the clients returned
-	HotKeys   [2]int
+	NoCleanup  bool // C14: audit without calling anything after the clients returned
+	HotKeys    [2]int
 	AllowStall bool
 	NonTrivial func(o *ConcOutcome) bool
 }
@@ -72,24 +72,24 @@ type concRun struct {
 	viol  []Violation
 	probe map[string]int
 	// quiescence observations
-	auditNoCleanup *otter.VerifAudit
-	auditFinal     *otter.VerifAudit
-	rawNoCleanup   []otter.Entry[int, int]
-	finalAll       []EntryView
-	finalHot       []EntryView
-	finalCold      []EntryView
-	finalWSize     uint64
-	finalESize     int
-	finalMax       uint64
-	finalStats     Result
-	liveAtEnd      []string
+	auditNoCleanup    *otter.VerifAudit
+	auditFinal        *otter.VerifAudit
+	rawNoCleanup      []otter.Entry[int, int]
+	finalAll          []EntryView
+	finalHot          []EntryView
+	finalCold         []EntryView
+	finalWSize        uint64
+	finalESize        int
+	finalMax          uint64
+	finalStats        Result
+	liveAtEnd         []string
 	eventsAtNoCleanup int
-	freshLoadOK    bool
-	freshLoadTried bool
-	execTask       *simrt.Task
-	execAddr       byte
-	stop           bool
-	taskFinish     map[int]uint64
+	freshLoadOK       bool
+	freshLoadTried    bool
+	execTask          *simrt.Task
+	execAddr          byte
+	stop              bool
+	taskFinish        map[int]uint64
 }
 
 func (cr *concRun) fail(props []string, rule string, key int, format string, a ...any) {
